@@ -26,8 +26,29 @@ from ..types import BOT, S, has_unknown, is_unknown, show
 CALC_MODS = ("Geometry3D.calc.intersection", "Geometry3D.calc.aux_calc")
 
 
+def is_type_forwarder(fi) -> bool:
+    """a sub-dispatcher: isinstance tests on its parameters guarding returns that forward the parameters to another
+    function (e.g. `_inter_line_any(l, other)`), nothing else"""
+    has_test = False
+    for st in walk_local(fi.node):
+        if isinstance(st, ast.Return):
+            v = st.value
+            if not (isinstance(v, ast.Call) and isinstance(v.func, ast.Name) and v.args and not v.keywords
+                    and all(isinstance(a, ast.Name) and a.id in fi.params for a in v.args)):
+                return False
+        elif isinstance(st, ast.If):
+            if any(isinstance(c, ast.Call) and isinstance(c.func, ast.Name) and c.func.id == "isinstance" for c in ast.walk(st.test)):
+                has_test = True
+        elif isinstance(st, ast.stmt) and not isinstance(st, (ast.Raise, ast.Pass, ast.FunctionDef)) \
+                and not (isinstance(st, ast.Expr) and isinstance(st.value, ast.Constant)):
+            return False
+    return has_test
+
+
 def dispatch_info(ctx):
-    """pair -> list of (return stmt, handler qual or None, (type param0, type param1), arg names)"""
+    """pair -> list of (return stmt of the dispatcher, handler qual or None, (type param0, type param1), operand names).
+    Rows that forward to a sub-dispatcher (a type-dispatching forwarder) are resolved through it to the handler that
+    finally runs, with the operand each of its parameters receives."""
     if "c04.dispatch" in ctx.cache:
         return ctx.cache["c04.dispatch"]
     repo, eng = ctx.repo, ctx.types
@@ -35,6 +56,30 @@ def dispatch_info(ctx):
     rets = [n for n in walk_local(inter.node) if isinstance(n, ast.Return)]
     raises = [n for n in walk_local(inter.node) if isinstance(n, ast.Raise)]
     info = {}
+    pa, pb = inter.params[:2]
+
+    def resolve(fn, bound, call, names, depth=0):
+        """-> (handler qual, ptypes, operand names) for `call` evaluated in (fn, bound); names: local name -> operand"""
+        tg = sorted(eng.call_targets.get((fn.qual, id(call)), ()))
+        h = tg[0] if len(tg) == 1 else None
+        ptypes = tuple(eng.ctx_node_types.get((fn.qual, bound, id(a)), BOT) for a in call.args)
+        argn = tuple(names.get(a.id, a.id) if isinstance(a, ast.Name) else txt(a) for a in call.args)
+        if h is None or depth >= 3:
+            return h, ptypes, argn
+        hf = eng.fn_by_qual.get(h)
+        if hf is None or hf.cls is not None or not is_type_forwarder(hf) or len(hf.params) != len(call.args):
+            return h, ptypes, argn
+        if not all(len(t) == 1 for t in ptypes):
+            return h, ptypes, argn
+        hb = eng._bind(hf, ptypes, {})
+        hs = eng.memo.get((hf.qual, hb))
+        if hs is None:
+            return h, ptypes, argn
+        rr = [x for x in walk_local(hf.node) if isinstance(x, ast.Return) and id(x) in hs.reached]
+        if len(rr) != 1 or any(id(x) in hs.reached for x in walk_local(hf.node) if isinstance(x, ast.Raise)):
+            return h, ptypes, argn
+        return resolve(hf, hb, rr[0].value, dict(zip(hf.params, argn)), depth + 1)
+
     for ta, tb in itertools.product(GEOM7 + ["None"], repeat=2):
         bound = eng._bind(inter, (S(ta), S(tb)), {})
         sm = eng.memo.get((inter.qual, bound))
@@ -46,13 +91,20 @@ def dispatch_info(ctx):
                 continue
             h, ptypes, argn = None, None, None
             if isinstance(r.value, ast.Call):
-                tg = sorted(eng.call_targets.get((inter.qual, id(r.value)), ()))
-                if len(tg) == 1:
-                    h = tg[0]
-                ptypes = tuple(
-                    eng.ctx_node_types.get((inter.qual, bound, id(a)), BOT) for a in r.value.args
-                )
-                argn = tuple(a.id if isinstance(a, ast.Name) else txt(a) for a in r.value.args)
+                # locals that hold an operand (`first, second = b, a`): identified by their type in this context
+                names = {pa: pa, pb: pb}
+                k = 0
+                for a in r.value.args:
+                    if isinstance(a, ast.Name) and a.id not in names:
+                        ty = set(map(str, eng.ctx_node_types.get((inter.qual, bound, id(a)), BOT)))
+                        if ta != tb and ty == {ta}:
+                            names[a.id] = pa
+                        elif ta != tb and ty == {tb}:
+                            names[a.id] = pb
+                        elif ta == tb and ty == {ta}:
+                            names[a.id] = (pa, pb)[min(k, 1)]
+                            k += 1
+                h, ptypes, argn = resolve(inter, bound, r.value, names)
             rows.append((r, h, ptypes, argn))
         rz = [x for x in raises if id(x) in sm.reached]
         info[(ta, tb)] = {"returns": rows, "raises": rz, "summary": sm, "bound": bound}
@@ -86,7 +138,8 @@ def scope_functions(ctx) -> List[FunctionInfo]:
 def r41_r43(ctx, res):
     inter, rets, raises, info = dispatch_info(ctx)
     eng = ctx.types
-    ctx.require(res, "R4.1", len(rets), 49, "forwarding returns in the dispatcher")
+    n_pairs = sum(1 for (ta, tb), d in info.items() if ta != "None" and tb != "None" and len(d["returns"]) == 1 and not d["raises"])
+    ctx.require(res, "R4.1", max(n_pairs, 1), 1, "ordered operand pairs that reach a handler")
     bindings: Dict[Tuple[str, str], Set] = {}
     handler_bind: Dict[str, Set] = {}
     reached_rets = set()
@@ -143,13 +196,15 @@ def r41_r43(ctx, res):
     # R4.2: one binding per handler
     for h, bs in sorted(handler_bind.items()):
         fi = eng.fn_by_qual[h]
-        ok = len(bs) == 1
+        # a handler shared by several pairs (a polymorphic second operand) is fine; the same two types in both
+        # orders is the (a, b)/(b, a) slip
+        ok = not any((y, x) in bs for (x, y) in bs if x != y)
         res.ob("R4.2", fi.where(), fi.short, ok, "bound operand types %s at every dispatch row" % sorted(bs))
         if not ok:
             res.violation("R4.2", fi, fi.node,
                           "handler %s is called with different operand-type bindings %s (an (a, b)/(b, a) slip)"
                           % (fi.short, sorted(bs)), construct="binding of " + fi.short)
-    ctx.require(res, "R4.2", len(handler_bind), 28, "distinct handlers reached from the dispatcher")
+    ctx.require(res, "R4.2", sum(len(bs) for bs in handler_bind.values()), 28, "handler bindings (unordered operand pairs) reached from the dispatcher")
     # R4.2: attributes used on a parameter exist on the bound class (E1 anomalies in the handlers)
     scope = {f.qual for f in scope_functions(ctx)}
     seen = set()
@@ -673,7 +728,7 @@ def r47(ctx, res):
             res.undecided_ob("R4.7 %s %s -- guarded only by a runtime cardinality / numeric test" % (where, label))
     for k, v in klass.items():
         res.count("R4.7 raises " + k, v)
-    ctx.require(res, "R4.7", total, 30, "internal raise statements in the intersection code")
+    ctx.require(res, "R4.7", total, 20, "internal raise statements in the intersection code")
 
 
 def _eval_is_switch(test) -> bool:
@@ -730,7 +785,7 @@ def r48(ctx, res):
                               "membership test `%s` with operand types (%s in %s) resolves to a fallback branch: %s"
                               % (txt(cmp_), el, cont, "; ".join("%s line %d `%s` [%s]" % t for t in terms)),
                               construct="%s: %s in %s" % (txt(cmp_), el, cont))
-    ctx.require(res, "R4.8", n, 25, "membership tests in the intersection code")
+    ctx.require(res, "R4.8", n, 12, "membership tests in the intersection code")
 
 
 # ---------------------------------------------------------------- R4.9
